@@ -1,2 +1,145 @@
-From Coq Require Import ZArith NArith List Bool Lia.
+(* Properties_C20.v — density sketch: exact counts, retained = iteration, bound k * levels, wrong dimensions refused,
+   exact kernel mean before the first compaction, non-negative estimates, termination of the compaction loops.
+   Statements only; proofs live in DensityProofs.v.  Everything is for ANY kernel K : point -> point -> Z, any merge
+   tree of updates (type [hist]) and ANY sequence of internal choices (every [env] in the history is arbitrary). *)
+From Coq Require Import ZArith NArith List Bool Lia QArith.
 From DS Require Import RunnerLib DensityDefs DensityProofs.
+Import ListNotations.
+Local Open Scope Z_scope.
+
+Section AnyKernel.
+  Variable K : point -> point -> Z.            (* ANY kernel, any sign, not necessarily symmetric *)
+
+  (* -- reachable states satisfy the accounting invariant; retained <= k * levels and retained <= n at rest -- *)
+  Theorem C20_retained_accounting : forall h, valid h ->
+    d_ret (eval K h) = Z.of_nat (total (d_levels (eval K h))) /\
+    length (ds_iterate (eval K h)) = total (d_levels (eval K h)).
+  Proof. exact (retained_accounting K). Qed.
+
+  Theorem C20_retained_is_iteration_length : forall h, valid h ->
+    Z.of_nat (length (ds_iterate (eval K h))) = d_ret (eval K h).
+  Proof. intros h Hv. destruct (C20_retained_accounting h Hv) as [H1 H2]. now rewrite H2, H1. Qed.
+
+  (* the iterator yields exactly the points of level h with weight 2^h *)
+  Theorem C20_iteration_weights : forall s p w,
+    In (p, w) (ds_iterate s) <->
+    exists level, (level < length (d_levels s))%nat /\ w = 2 ^ Z.of_nat level /\ In p (nth level (d_levels s) []).
+  Proof. exact iteration_weights. Qed.
+
+  Theorem C20_retained_bound : forall h, valid h ->
+    d_ret (eval K h) <= d_k (eval K h) * Z.of_nat (length (d_levels (eval K h))) /\
+    d_ret (eval K h) <= d_n (eval K h).
+  Proof. intros h Hv. destruct (eval_inv K h Hv) as (_ & H1 & H2). split; assumption. Qed.
+
+  (* -- wrong dimensions -- *)
+  Theorem C20_update_wrong_dimension_refused : forall s p e,
+    ds_update K s p e = None <-> Z.of_nat (length p) <> d_dim s.
+  Proof. exact (ds_update_refused K). Qed.
+
+  Theorem C20_merge_wrong_dimension_refused : forall s o e,
+    ds_merge K s o e = None <-> d_ret o <> 0 /\ d_dim o <> d_dim s.
+  Proof. exact (ds_merge_refused K). Qed.
+
+  (* a refused operation changes neither the sketch nor its input stream (by definition of [eval]/[inputs]);
+     an accepted update has the configured dimension and counts once *)
+  Theorem C20_update_counts_once : forall s p e s' e', inv s -> ds_update K s p e = Some (s', e') ->
+    Z.of_nat (length p) = d_dim s /\ d_n s' = d_n s + 1 /\ inv s'.
+  Proof. intros s p e s' e' Hs H. apply (ds_update_spec K) in H; tauto. Qed.
+
+  (* merging a sketch that retains points adds its n (see C20_merge_n_lost_witness for num_retained = 0) *)
+  Theorem C20_merge_adds_n : forall s o e s' e', inv s -> inv o -> d_ret o <> 0 ->
+    ds_merge K s o e = Some (s', e') -> d_n s' = d_n s + d_n o /\ inv s'.
+  Proof. intros s o e s' e' Hs Ho Hr H. apply (ds_merge_spec K) in H; tauto. Qed.
+
+  (* -- n is exact for every merge tree whose merge sources are not "n > 0, num_retained = 0" -- *)
+  Theorem C20_n_exact : forall h, valid h -> lossless K h ->
+    d_n (eval K h) = Z.of_nat (length (inputs K h)).
+  Proof. exact (n_exact K). Qed.
+
+  (* ... which is every merge tree when the kernel is strictly positive *)
+  Theorem C20_n_exact_positive_kernel : (forall a b, 0 < K a b) ->
+    forall h, valid h -> d_n (eval K h) = Z.of_nat (length (inputs K h)).
+  Proof. exact (n_exact_pos K). Qed.
+
+  Theorem C20_positive_kernel_keeps_points : (forall a b, 0 < K a b) ->
+    forall h, valid h -> inputs K h <> [] -> 0 < d_ret (eval K h).
+  Proof. exact (pos_retained K). Qed.
+
+  (* -- termination of the while-loops of update and merge: the loop exits with its condition false, for every
+        well-formed state and every choice sequence; the fuel 2^depth is never the reason to stop -- *)
+  Theorem C20_compactions_terminate : forall s e, wf s ->
+    over (run_compactions K s e) = false /\
+    forall extra, while_fuel _ over (compact K) (2 ^ depth s + extra) (s, e) = run_compactions K s e.
+  Proof.
+    intros s e Hwf. split; [apply (run_compactions_spec K s e Hwf)|].
+    intros g. now apply run_compactions_fuel_irrelevant.
+  Qed.
+
+  Theorem C20_reachable_wellformed : forall h, valid h -> wf (eval K h).
+  Proof. intros h Hv. apply (eval_inv K h Hv). Qed.
+
+  (* -- exact before the first compaction: while every sketch of the merge tree has a single level, the estimate at
+        any query point is (sum of K(x_i, q) over all inputs, in input order) / (number of inputs) -- *)
+  Theorem C20_exact_before_compaction : forall h q, valid h -> exact_mode K h -> inputs K h <> [] ->
+    ds_estimate K (eval K h) q = Some (ksum K q (inputs K h), Z.of_nat (length (inputs K h))) /\
+    d_levels (eval K h) = [inputs K h].
+  Proof. exact (exact_before_compaction K). Qed.
+
+  (* the number of levels never decreases, so "a single level" is "no compaction so far" *)
+  Theorem C20_levels_monotone : forall h p e h2, valid h -> valid h2 ->
+    (nlev (eval K h) <= nlev (eval K (HUpd h p e)))%nat /\ (nlev (eval K h) <= nlev (eval K (HMerge h h2 e)))%nat.
+  Proof. intros. split; [now apply levels_monotone_update|now apply levels_monotone_merge]. Qed.
+
+  (* -- non-negative kernel: the estimate num/den is a non-negative rational, for every reachable state -- *)
+  Theorem C20_estimate_nonneg : (forall a b, 0 <= K a b) ->
+    forall h q num den, valid h -> ds_estimate K (eval K h) q = Some (num, den) ->
+    0 <= num /\ 0 < den /\ (0 <= num # Z.to_pos den)%Q.
+  Proof.
+    intros HK h q num den Hv H. destruct (estimate_nonneg K HK h q num den Hv H) as [H0 H1].
+    repeat split; auto. unfold Qle; simpl. lia.
+  Qed.
+End AnyKernel.
+
+(* ---- non-vacuity and witnesses (concrete kernels of the harness) ---- *)
+Definition e0 := mk_env [].
+
+(* a history with compactions under the dyadic kernel: hypotheses hold, conclusions are informative *)
+Example C20_nonvacuous :
+  let h := fold_left (fun h x => HUpd h [x; 1] (mk_env [1; 1; 0; 1; 0; 1; 0])) [0; 1; 2; 3; 1; 0; 2; 5; 1] (HNew 2 2) in
+  (d_n (eval kern0 h) =? 9) = true /\ (1 <? Z.of_nat (nlev (eval kern0 h))) = true /\
+  (d_ret (eval kern0 h) <? 9) = true /\ (0 <? d_ret (eval kern0 h)) = true.
+Proof. vm_compute. repeat split. Qed.
+
+(* exact mode: 3 points, k = 8, merge of two sketches; estimate = kernel mean *)
+Example C20_exact_nonvacuous :
+  let a := HUpd (HUpd (HNew 8 1) [0] e0) [2] e0 in
+  let b := HUpd (HNew 8 1) [1] e0 in
+  ds_estimate kern0 (eval kern0 (HMerge a b e0)) [1] = Some (2 ^ 19 + 2 ^ 19 + 2 ^ 20, 3).
+Proof. vm_compute. reflexivity. Qed.
+
+(* WITNESS of the defect reported as merge_ignores_source_with_zero_retained: with kernel values exactly 0 and first
+   sign bit 0 a compaction drops every point; the sketch then has n = 2, num_retained = 0, and merging it adds nothing.
+   Hence C20_n_exact needs [lossless] (or a strictly positive kernel). *)
+Example C20_merge_n_lost_witness :
+  let src := HMerge (HUpd (HNew 2 1) [0] e0) (HUpd (HNew 2 1) [100] e0) (mk_env [0; 0]) in
+  let h := HMerge (HUpd (HNew 2 1) [5] e0) src e0 in
+  valid h /\ d_n (eval kern0 src) = 2 /\ d_ret (eval kern0 src) = 0 /\
+  length (inputs kern0 h) = 3%nat /\ d_n (eval kern0 h) = 1 /\ ds_estimate kern0 (eval kern0 src) [0] = None.
+Proof. vm_compute. repeat split; intro; discriminate. Qed.
+
+Print Assumptions C20_retained_accounting.
+Print Assumptions C20_retained_is_iteration_length.
+Print Assumptions C20_iteration_weights.
+Print Assumptions C20_retained_bound.
+Print Assumptions C20_update_wrong_dimension_refused.
+Print Assumptions C20_merge_wrong_dimension_refused.
+Print Assumptions C20_update_counts_once.
+Print Assumptions C20_merge_adds_n.
+Print Assumptions C20_n_exact.
+Print Assumptions C20_n_exact_positive_kernel.
+Print Assumptions C20_positive_kernel_keeps_points.
+Print Assumptions C20_compactions_terminate.
+Print Assumptions C20_reachable_wellformed.
+Print Assumptions C20_exact_before_compaction.
+Print Assumptions C20_levels_monotone.
+Print Assumptions C20_estimate_nonneg.
